@@ -129,6 +129,7 @@ def run(ctx):
                        "segments (a third of them outside the documented use: mixed data modes, single-track calls on multi-track "
                        "fragments, unknown track ids, inconsistent sizes/decode times): op outcome classes, write-order numbers, tfdt, "
                        "mdat bookkeeping, tfhd/trun flags and defaults after optimisation, every data offset, moof/mdat-header/encoded sizes, "
+                       "the moof bytes (byte for byte, when moof and trafs have no extra children), "
                        "FullSample lists recovered by DecodeFile/DecodeFileSR + GetFullSamples for every trex and nil; "
                        "plus every history of length <= %d over 2 tracks and 2-valued flags/duration/cto with and without optimisation; "
                        "distinct = distinct case lines; "
